@@ -413,6 +413,11 @@ func (ex *Exec) evalIndex(base, idx TV, env *Env) TV {
 				}
 			}
 		}
+		if strings.HasPrefix(string(b.T.Sort), "(Array ") && base.T == nil {
+			// ghost array
+			ks, _ := arrayKV(b.T.Sort)
+			return TV{SV{Select(b.T, ex.term(idx.V, ks))}, nil}
+		}
 		switch {
 		case b.T.Sort == SStr:
 			return TV{SV{app(SInt, "str.at_", b.T, i)}, types.Typ[types.Uint8]}
